@@ -23,6 +23,14 @@ CLAIMED = {
   text="Deductive proof on the real __call__ and its three closures: the wiring (task runs the function with the caller's arguments, timer armed with the configured timeout, completion/result callbacks registered, caller awaits the result future) is checked at the first suspension; every loop event (task done with any outcome, timer fires, result future done) is simulated from an arbitrary state satisfying the invariant by executing the real closure, proving: no callback raises, a completed task always completes the result future with its own value / exception object / cancellation, the timer only fails a pending future with TimeoutError, the function task is cancelled once the future is done, and the invariant 'future pending => timer armed and completion not yet run' is preserved. The caller is resumed in every way T-FUT allows.",
   note="Trusted: T-FUT, T-TIMER, S4. Termination ('always terminates', 'at the deadline') is a paper step from the proved invariant + T-TIMER/T-FUT; 'leaves nothing running' additionally assumes the function reacts to cancellation.",
   ref="DESIGN.md 4 (C16)"),
+ "C12": dict(
+  text="Unbounded deductive proof over the four real cache bodies (sync/async x function/method; receivers built by executing the real __init__): object invariant (OrderedDict well formed, at most `limit` entries, every entry is a value produced for its key with expiry = insertion time + expiration) preserved on every path; postconditions: only values produced for the call's key are returned, never from an entry older than its expiration, the function is invoked iff the key is absent or expired, hit/miss LRU steps (move to end; only the least-recently-used key is evicted and only on overflow). Key adequacy is a relational obligation on the real key expression: equal keys iff T-KEY-equal typed arguments and, for methods, only for the same receiver object.",
+  note="Trusted: T-KEY (functools._make_key typed=True), T-WREF, T-ID, T-COLL OrderedDict model, S1/S7 clock, S4. LRU completeness over whole histories is proved in step form; the closed form is exercised natively by the bounded replay harness only. Sync: wrapped function does not re-enter the cache.",
+  ref="DESIGN.md 4 (C12), Appendix B.2"),
+ "C13": dict(
+  text="Deductive proof of the call shapes of the two real async cache bodies on every path: on a miss exactly one loop.create_task(function(...)) is started and stored under the key before the first suspension (atomic segment), every caller awaits shield(<the cached task>) (the entry's task on a hit, the new task on a miss) and returns/raises that task's outcome, a cancelled waiter raises CancelledError, and no path calls cancel() on a cached task (expiry/eviction only drop the entry). Interference at the await is a havoc of the cache up to its invariant.",
+  note="Trusted: T-SHIELD, T-FUT, S4: the schedule quantifier of the statement is carried by these (assumed); what is proved is that the real code has the shapes from which the statement follows under them.",
+  ref="DESIGN.md 4 (C13)"),
 }
 
 ALL = [f"C{i:02d}" for i in range(1, 21)]
